@@ -19,6 +19,10 @@ inductive Op where
   | tick
   | reopen
   | crash
+  | imerge (sel : List Nat)          -- a merge of the index parts at these positions, start to end
+  | mbegin (sel : List Nat)          -- a merger takes these index parts ...
+  | mend                             -- ... and finishes
+  | regroup (gs : List (List Nat))   -- the background mergers of a new process regrouped the parts
 deriving Repr
 
 def St.step (U : Univ) (st : St) : Op → St
@@ -32,6 +36,10 @@ def St.step (U : Univ) (st : St) : Op → St
   | .tick => st.tick
   | .reopen => st.reopen
   | .crash => st.crash
+  | .imerge sel => st.imerge sel
+  | .mbegin sel => st.mbegin sel
+  | .mend => st.mend
+  | .regroup gs => st.regroup gs
 
 def run (U : Univ) (st : St) (ops : List Op) : St := ops.foldl (St.step U) st
 
@@ -87,7 +95,7 @@ def Sp.card (U : Univ) (sp : Sp) (m : String) (p : Option Pred) : Nat :=
 /-- replaying the WAL through the write path gives every row the tsid it had when it was
 written: no series with a row in the WAL was dropped since. -/
 def replayStable (st : St) : Bool :=
-  let ix0 : Idx := { st.idx with deleted := st.idx.delDisk, delPend := [] }
+  let ix0 : Idx := st.idx.restart
   let r := resolveBatches ix0 (replayOrder st.lay.nParts st.kwal)
   decide (r.2 = roundRobin st.lay.nParts (st.lay.wal.length + 1) st.lay.wal) && decide (r.1 = ix0)
 
